@@ -1,21 +1,22 @@
 #!/usr/bin/env python3
 """copies confirmed seeded changes from /tmp/seed + /tmp/confirm into /verif/seeded/<id>_<k>/ (patch.diff against the current /repo HEAD, demo.py, meta.json)"""
-import glob, json, os, re, shutil, subprocess
+import glob, json, os, re, shutil, subprocess, sys
+CONF = os.environ.get('CONFIRM_DIR', '/tmp/confirm'); SEED = os.environ.get('SEED_DIR', '/tmp/seed'); OFF = int(os.environ.get('SEED_K_OFFSET', '0'))
 R = '/verif/seeded'
 head = subprocess.run(['git', '-C', '/repo', 'rev-parse', '--short', 'HEAD'], capture_output=True, text=True).stdout.strip()
-for res in sorted(glob.glob('/tmp/confirm/*.result')):
+for res in sorted(glob.glob(CONF + '/*.result')):
     line = open(res).read().strip()
     m = re.match(r'(C\d+) (\d) (.*)', line)
     if not m: continue
     pid, k, rest = m.groups()
     ok = 'applies=yes' in rest and 'demo_with_patch_exit=1' in rest and 'demo_without_patch_exit=0' in rest and 'suite_exit=0' in rest
-    d = os.path.join(R, f'{pid}_{k}')
+    d = os.path.join(R, f'{pid}_{int(k) + OFF}')
     if not ok:
         print('NOT CONFIRMED', line[:200]); continue
     os.makedirs(d, exist_ok=True)
-    shutil.copy(f'/tmp/confirm/{pid}_{k}.patch_on_head.diff', os.path.join(d, 'patch.diff'))
-    shutil.copy(f'/tmp/seed/{pid}.out/demo_{k}.py', os.path.join(d, 'demo.py'))
-    try: am = json.load(open(f'/tmp/seed/{pid}.out/meta_{k}.json'))
+    shutil.copy(f'{CONF}/{pid}_{k}.patch_on_head.diff', os.path.join(d, 'patch.diff'))
+    shutil.copy(f'{SEED}/{pid}.out/demo_{k}.py', os.path.join(d, 'demo.py'))
+    try: am = json.load(open(f'{SEED}/{pid}.out/meta_{k}.json'))
     except Exception: am = {}
     suite = re.search(r"suite='([^']*)'", rest)
     meta_path = os.path.join(d, 'meta.json')
